@@ -131,7 +131,9 @@ func (h *Session) findOrCreateHostWithLock(addr Addr) (host *Host, found bool) {
 	// if host exist in table but has different mac address,
 	// we need to remove the existing link host->mac and create a fresh link.
 	if host != nil {
+		host.MACEntry.Row.RLock() // Struct(host) copies the whole record
 		Logger.Msg("error mac address differ - duplicated IP?").Struct(addr).Struct(host).IP("iplookup", addr.IP).Write()
+		host.MACEntry.Row.RUnlock()
 		h.printHostTable()
 		h.deleteHost(addr.IP)
 		// TODO: previous host is offline then???
